@@ -781,14 +781,19 @@ def export_dxf(path, only_layers=None):
     entities_str = "\n".join(collected)
 
     # add in the extents of the document as explicit XYZ lines
-    hsub = {f"EXTMIN_{k}": v for k, v in zip("XYZ", np.append(path.bounds[0], 0.0))}
-    hsub.update({f"EXTMAX_{k}": v for k, v in zip("XYZ", np.append(path.bounds[1], 0.0))})
+    # a drawing without entities has no bounds: write zero extents
+    bounds = path.bounds if len(path.entities) > 0 else np.zeros((2, 2))
+    hsub = {f"EXTMIN_{k}": v for k, v in zip("XYZ", np.append(bounds[0], 0.0))}
+    hsub.update({f"EXTMAX_{k}": v for k, v in zip("XYZ", np.append(bounds[1], 0.0))})
     # apply a units flag defaulting to `1`
     hsub["LUNITS"] = _UNITS_TO_DXF.get(path.units, 1)
     # run the format for the header
     sections = [template["header"].format(**hsub).strip()]
     # do the same for entities
-    sections.append(template["entities"].format(ENTITIES=entities_str).strip())
+    # without entities there must be no blank line: every line is (group code, value)
+    sections.append(
+        template["entities"].format(ENTITIES=entities_str).replace("\n\n", "\n").strip()
+    )
     # and the footer
     sections.append(template["footer"].strip())
 
